@@ -240,7 +240,7 @@ def modelAcc (bs : Bytes) (ws : List String) : Option String :=
   | "seq_ctx" => some <| onSeq fun s => fmtRes (seqCtx s (natArg ws)) fun e => toString e.length
   | "scan_ctx" => some <| onSeq fun s => fmtRes (scanCtx s (natArg ws)) fun (e, s') => s!"{e.length}:{s'.length}"
   | "seq_raw_value" => some <| onSeq fun s => fmtRes (rawValue s) hex
-  | "fmt" => some <| match fmtOf (bs.length + 1) bs with
+  | "fmt" => some <| match fmtOf bs with
       | .ok _ => "ok" | .err _ => "e:fmt" | .panic .fuel => "hang" | .panic _ => "panic"
   | "seq_fmt" => some <| onSeq fun s => match seqFmtOf s with
       | .ok _ => "ok" | .err _ => "e:fmt" | .panic .fuel => "hang" | .panic _ => "panic"
